@@ -387,3 +387,21 @@ pub fn load_replay_case(path: &Path) -> Value {
     let v: Value = serde_json::from_str(&text).expect("parse replay file");
     v.get("case").cloned().unwrap_or(v)
 }
+
+/// Recursive copy of a (closed) node directory; RocksDB's LOCK files are recreated empty.
+pub fn copy_dir(from: &Path, to: &Path) -> Result<(), String> {
+    std::fs::create_dir_all(to).map_err(|e| e.to_string())?;
+    for e in std::fs::read_dir(from).map_err(|e| e.to_string())?.flatten() {
+        let p = e.path();
+        let t = to.join(e.file_name());
+        if p.is_dir() {
+            copy_dir(&p, &t)?;
+        } else if e.file_name() != "LOCK" {
+            std::fs::copy(&p, &t).map_err(|e| format!("copy {}: {e}", p.display()))?;
+        } else {
+            let _ = std::fs::File::create(&t);
+        }
+    }
+    Ok(())
+}
+
